@@ -274,6 +274,7 @@ func genC09() {
 	g.def("apk_resolved_hashes", "list (string * string)", c09List(hashes), "APKResolved hash fields <- APKExpanded fields")
 
 	g.write()
+	genC09Build()
 }
 
 // c09ArchOrder: LockImageConfiguration fills the slice it passes to unify in a
@@ -457,4 +458,289 @@ func c09ArchOrder(fd *ast.FuncDecl, rel string) (string, ast.Node) {
 	}
 	fail("%s: LockImageConfiguration: cannot tell in which order the loop at %s visits the architectures (range over %s)", rel, fset.Position(loop.Pos()), exprText(loop.X))
 	return "sorted", loop
+}
+
+// ---- the Lockfile branch of buildImage (session 5) ---------------------------------------------
+// c09Cond: a boolean condition over struct fields, by shape: comparisons (== / !=) of a field with a
+// string literal or with another field, joined by && / || / !.  A field is named by its LAST selector
+// (the struct's field name, not the local that holds the struct); a niladic method call by name+"()".
+// [side] may prefix an atom by the loop it comes from (see c09BaseFilter).
+func c09Atom(e ast.Expr, side func(ast.Expr) string) (string, bool) {
+	for {
+		if p, ok := e.(*ast.ParenExpr); ok {
+			e = p.X
+			continue
+		}
+		break
+	}
+	if id, ok := e.(*ast.Ident); ok { // a local that merely holds a field (`want := lock.Config.DeepChecksum`)
+		if src, ok := c09Alias[id.Name]; ok {
+			e = src
+		}
+	}
+	pre := ""
+	if side != nil {
+		pre = side(e)
+	}
+	switch x := e.(type) {
+	case *ast.SelectorExpr:
+		return pre + x.Sel.Name, true
+	case *ast.CallExpr:
+		if se, ok := x.Fun.(*ast.SelectorExpr); ok && len(x.Args) == 0 {
+			return pre + se.Sel.Name + "()", true
+		}
+	}
+	return "", false
+}
+
+// locals bound once (`x := a.b.c`) to a plain field, by name -> that field
+var c09Alias = map[string]ast.Expr{}
+
+func c09CollectAliases(n ast.Node) {
+	c09Alias = map[string]ast.Expr{}
+	if n == nil {
+		return
+	}
+	ast.Inspect(n, func(m ast.Node) bool {
+		if as, ok := m.(*ast.AssignStmt); ok && as.Tok == token.DEFINE && len(as.Lhs) == 1 && len(as.Rhs) == 1 {
+			if id, ok := as.Lhs[0].(*ast.Ident); ok {
+				if se, ok := as.Rhs[0].(*ast.SelectorExpr); ok {
+					c09Alias[id.Name] = se
+				}
+			}
+		}
+		return true
+	})
+}
+
+func c09Cond(e ast.Expr, side func(ast.Expr) string, where string) string {
+	switch x := e.(type) {
+	case *ast.ParenExpr:
+		return c09Cond(x.X, side, where)
+	case *ast.UnaryExpr:
+		if x.Op == token.NOT {
+			return "(GNot " + c09Cond(x.X, side, where) + ")"
+		}
+	case *ast.BinaryExpr:
+		switch x.Op {
+		case token.LAND:
+			return "(GAnd " + c09Cond(x.X, side, where) + " " + c09Cond(x.Y, side, where) + ")"
+		case token.LOR:
+			return "(GOr " + c09Cond(x.X, side, where) + " " + c09Cond(x.Y, side, where) + ")"
+		case token.EQL, token.NEQ:
+			l, r := x.X, x.Y
+			if _, ok := strLit(l); ok { // literal on the left: swap
+				l, r = r, l
+			}
+			a, ok := c09Atom(l, side)
+			if !ok {
+				break
+			}
+			var t string
+			if s, ok := strLit(r); ok {
+				t = "(GEqLit " + coqStr(a) + " " + coqStr(s) + ")"
+			} else if b, ok := c09Atom(r, side); ok {
+				if b < a { // == is symmetric: a stable order of the two fields
+					a, b = b, a
+				}
+				t = "(GEq " + coqStr(a) + " " + coqStr(b) + ")"
+			} else {
+				break
+			}
+			if x.Op == token.NEQ {
+				t = "(GNot " + t + ")"
+			}
+			return t
+		}
+	}
+	fail("%s: condition %q is outside the translated fragment", where, exprText(e))
+	return "(GEqLit \"\" \"\")"
+}
+
+func returnsError(b *ast.BlockStmt) bool {
+	found := false
+	ast.Inspect(b, func(n ast.Node) bool {
+		if r, ok := n.(*ast.ReturnStmt); ok && len(r.Results) > 0 {
+			found = true
+		}
+		return true
+	})
+	return found
+}
+
+// epochArg: nil, or the field whose address is passed
+func epochArg(e ast.Expr) string {
+	if id, ok := e.(*ast.Ident); ok && id.Name == "nil" {
+		return "nil"
+	}
+	if u, ok := e.(*ast.UnaryExpr); ok && u.Op == token.AND {
+		if a, ok := c09Atom(u.X, nil); ok {
+			return a
+		}
+	}
+	if a, ok := c09Atom(e, nil); ok {
+		return "value:" + a
+	}
+	return "?" + exprText(e)
+}
+
+func genC09Build() {
+	g := newGen("C09Build", "From Apko Require Import Base.Prelude Base.C09Lib.\nOpen Scope string_scope.")
+	const rel = "pkg/build/build_implementation.go"
+	bi := findFunc(rel, "Context", "buildImage")
+	// the branch `if X.Lockfile != "" { … } else { … }`
+	var branch *ast.IfStmt
+	if bi != nil {
+		ast.Inspect(bi, func(n ast.Node) bool {
+			is, ok := n.(*ast.IfStmt)
+			if !ok || branch != nil {
+				return true
+			}
+			if be, ok := is.Cond.(*ast.BinaryExpr); ok && be.Op == token.NEQ {
+				if a, ok := c09Atom(be.X, nil); ok && a == "Lockfile" {
+					if s, ok := strLit(be.Y); ok && s == "" {
+						branch = is
+					}
+				}
+			}
+			return true
+		})
+	}
+	if branch == nil {
+		fail("%s: buildImage: no branch `if X.Lockfile != \"\"`", rel)
+		g.write()
+		return
+	}
+	// inside: `if L.Config == nil { (no return) } else if COND { return error }` (or the nil test folded elsewhere)
+	var chain *ast.IfStmt
+	ast.Inspect(branch.Body, func(n ast.Node) bool {
+		is, ok := n.(*ast.IfStmt)
+		if !ok || chain != nil {
+			return true
+		}
+		if be, ok := is.Cond.(*ast.BinaryExpr); ok && be.Op == token.EQL {
+			if a, ok := c09Atom(be.X, nil); ok && a == "Config" {
+				if id, ok := be.Y.(*ast.Ident); ok && id.Name == "nil" {
+					chain = is
+				}
+			}
+		}
+		return true
+	})
+	if chain == nil {
+		fail("%s: buildImage: no `if lock.Config == nil` in the Lockfile branch", rel)
+		g.write()
+		return
+	}
+	g.def("lock_guard_nil_config_refuses", "bool", map[bool]string{true: "true", false: "false"}[returnsError(chain.Body)],
+		"a lock file without a config record: refused? (guard at "+g.pos(chain)+")")
+	refuse := "(GEqLit \"\" \"never\")"
+	c09CollectAliases(branch.Body)
+	switch el := chain.Else.(type) {
+	case *ast.IfStmt:
+		if el.Else != nil {
+			fail("%s: buildImage: the stale-lock guard has more than two arms", rel)
+		}
+		if returnsError(el.Body) {
+			refuse = c09Cond(el.Cond, nil, rel+":buildImage(stale-lock guard)")
+		} else {
+			fail("%s: buildImage: the second arm of the stale-lock guard does not return an error", rel)
+		}
+	case *ast.BlockStmt:
+		if returnsError(el) {
+			refuse = "(GNot (GEqLit \"\" \"never\"))"
+		}
+	case nil:
+	}
+	g.def("lock_guard_refuse", "gexp", refuse, "with a config record: the build is refused when this holds (fields of the options and of lock.Config)")
+	// the epoch handed to the installer on either path
+	arg := func(body ast.Node, method string, idx int) string {
+		res := ""
+		ast.Inspect(body, func(n ast.Node) bool {
+			c, ok := n.(*ast.CallExpr)
+			if !ok || res != "" {
+				return true
+			}
+			if se, ok := c.Fun.(*ast.SelectorExpr); ok && se.Sel.Name == method && len(c.Args) > idx {
+				res = epochArg(c.Args[idx])
+			}
+			return true
+		})
+		if res == "" {
+			fail("%s: buildImage: no call of %s", rel, method)
+		}
+		return res
+	}
+	g.def("locked_install_epoch", "string", coqStr(arg(branch.Body, "InstallPackages", 1)), "second argument of InstallPackages on the Lockfile path")
+	if branch.Else != nil {
+		g.def("unlocked_install_epoch", "string", coqStr(arg(branch.Else, "FixateWorld", 1)), "second argument of FixateWorld on the other path")
+	} else {
+		fail("%s: buildImage: the Lockfile branch has no else", rel)
+	}
+	// ResolveWithBase: which resolved packages count as already in the base image
+	c09CollectAliases(nil)
+	rb := findFunc(rel, "Context", "ResolveWithBase")
+	filter := ""
+	if rb != nil {
+		var loops []*ast.RangeStmt
+		var visit func(n ast.Node, stack []*ast.RangeStmt)
+		visit = func(n ast.Node, stack []*ast.RangeStmt) {
+			ast.Inspect(n, func(m ast.Node) bool {
+				if m == n {
+					return true
+				}
+				switch x := m.(type) {
+				case *ast.RangeStmt:
+					visit(x.Body, append(append([]*ast.RangeStmt(nil), stack...), x))
+					return false
+				case *ast.IfStmt:
+					if filter == "" && len(stack) >= 2 && len(x.Body.List) == 1 {
+						if as, ok := x.Body.List[0].(*ast.AssignStmt); ok && len(as.Rhs) == 1 && exprText(as.Rhs[0]) == "true" {
+							loops = stack
+							outer, inner := "", ""
+							if id, ok := stack[len(stack)-2].Value.(*ast.Ident); ok {
+								outer = id.Name
+							}
+							if id, ok := stack[len(stack)-1].Value.(*ast.Ident); ok {
+								inner = id.Name
+							}
+							side := func(e ast.Expr) string {
+								root := e
+								for {
+									switch y := root.(type) {
+									case *ast.SelectorExpr:
+										root = y.X
+										continue
+									case *ast.CallExpr:
+										root = y.Fun
+										continue
+									}
+									break
+								}
+								if id, ok := root.(*ast.Ident); ok {
+									switch id.Name {
+									case outer:
+										return "resolved."
+									case inner:
+										return "base."
+									}
+								}
+								return "?."
+							}
+							filter = c09Cond(x.Cond, side, rel+":ResolveWithBase(in-base filter)")
+						}
+					}
+				}
+				return true
+			})
+		}
+		visit(rb.Body, nil)
+		_ = loops
+	}
+	if filter == "" {
+		fail("%s: ResolveWithBase: no `if COND { flag = true }` inside two nested range loops", rel)
+		filter = "(GEqLit \"\" \"\")"
+	}
+	g.def("in_base_filter", "gexp", filter, "ResolveWithBase: a resolved package is already in the base image when this holds for some package of the base image")
+	g.write()
 }
